@@ -36,23 +36,23 @@ var shapeCache = map[string]*Shape{}
 
 // opaqueNamed lists named types modelled as one scalar.
 var opaqueNamed = map[string]*Sort{
-	"time.Time":           STime,
-	"sync.Mutex":          SBool, // the ghost "held" flag
-	"sync.RWMutex":        SBool,
-	"net/netip.Addr":      SOpq,
-	"net/netip.AddrPort":  SOpq,
-	"reflect.Value":       SOpq,
-	"sync/atomic.Int64":   SOpq,
-	"sync/atomic.Uint64":  SOpq,
-	"sync/atomic.Bool":    SOpq,
-	"sync/atomic.noCopy":  SOpq,
-	"sync.WaitGroup":      SOpq,
-	"sync.Once":           SOpq,
-	"expvar.Int":          SOpq,
-	"expvar.Float":        SOpq,
-	"expvar.Map":          SOpq,
-	"bytes.Buffer":        SOpq,
-	"strings.Builder":     SOpq,
+	"time.Time":             STime,
+	"sync.Mutex":            SBool, // the ghost "held" flag
+	"sync.RWMutex":          SBool,
+	"net/netip.Addr":        SOpq,
+	"net/netip.AddrPort":    SOpq,
+	"reflect.Value":         SOpq,
+	"sync/atomic.Int64":     SOpq,
+	"sync/atomic.Uint64":    SOpq,
+	"sync/atomic.Bool":      SOpq,
+	"sync/atomic.noCopy":    SOpq,
+	"sync.WaitGroup":        SOpq,
+	"sync.Once":             SOpq,
+	"expvar.Int":            SOpq,
+	"expvar.Float":          SOpq,
+	"expvar.Map":            SOpq,
+	"bytes.Buffer":          SOpq,
+	"strings.Builder":       SOpq,
 	"encoding/json.Decoder": SOpq,
 }
 
